@@ -114,6 +114,7 @@ type subscriber struct {
 	returned bool
 	cancelFn func()
 	canc     bool
+	cancelIn bool // cancel from inside the terminal callback
 	sseGate  chan string
 	sseW     http.ResponseWriter
 	sseDone  chan struct{}
@@ -429,8 +430,10 @@ func (w *World) handler(i int, sse bool) sc.Handler {
 			w.logf(common.L(pfx, common.I(i), "d", common.I(tag)))
 		case sc.MessageTypeError:
 			w.logf(common.L(pfx, common.I(i), "e"))
+			w.cancelInside(i)
 		case sc.MessageTypeComplete:
 			w.logf(common.L(pfx, common.I(i), "c"))
+			w.cancelInside(i)
 		case sc.MessageTypeConnectionError:
 			if sse {
 				w.logf(common.L("sseerr", common.I(i)))
@@ -440,6 +443,19 @@ func (w *World) handler(i int, sse bool) sc.Handler {
 		default:
 			w.logf(common.L(pfx, common.I(i), "unknown"))
 		}
+	}
+}
+
+// cancelInside: the subscriber reacts to its terminal message by cancelling, synchronously on the
+// connection's read goroutine (dispatch has called the handler and has not yet run removeSub) -- what
+// updater.Done() + context.AfterFunc(ctx, cancel) do in graphql_subscription_client.go.
+func (w *World) cancelInside(i int) {
+	w.mu.Lock()
+	sb := w.subs[i]
+	arm := sb != nil && sb.cancelIn && !sb.canc
+	w.mu.Unlock()
+	if arm {
+		w.cancelSub(i)
 	}
 }
 
@@ -695,6 +711,17 @@ func (w *World) apply(s *Sched, e Ev) {
 			return
 		}
 		applicable = w.cancelSub(e.A)
+	case "cancelin":
+		if w.skip[e.A] {
+			return
+		}
+		w.mu.Lock()
+		if sb := w.subs[e.A]; sb != nil && !sb.canc {
+			sb.cancelIn = true
+		} else {
+			applicable = false
+		}
+		w.mu.Unlock()
 	case "accept":
 		k := keyOfIdx(s, e.A)
 		if c := w.pending(k, 0); c != nil {
@@ -1046,6 +1073,36 @@ func genAll(seed uint64, thorough bool) []*Sched {
 			}
 		}
 	}
+	// --- family 1b: a subscriber cancels from inside its terminal callback (double removal of one id)
+	// while the connection is shared with other live subscriptions
+	for idle := 0; idle < 3; idle++ {
+		for _, term := range []string{"complete", "error"} {
+			for who := 0; who < 2; who++ {
+				other := 1 - who
+				base := []Ev{{Op: "sub", A: 0, B: 0}, {Op: "accept", A: 0}, {Op: "sub", A: 1, B: 0}, {Op: "ack", A: 0}}
+				evs := append(base, Ev{Op: "cancelin", A: who}, Ev{Op: "next", A: who, B: 60}, Ev{Op: term, A: who},
+					Ev{Op: "next", A: other, B: 61}, Ev{Op: "next", A: who, B: 62})
+				if idle == 1 {
+					evs = append(evs, Ev{Op: "tick"}, Ev{Op: "next", A: other, B: 63})
+				}
+				evs = append(evs, Ev{Op: "cancel", A: other})
+				if idle == 1 {
+					evs = append(evs, Ev{Op: "tick"}) // drain is judged after the idle period
+				}
+				evs = append(evs, Ev{Op: "stats"})
+				add(idle, map[int]Key{0: k0, 1: k0}, evs)
+				// three subscriptions: the double removal leaves two
+				evs3 := []Ev{{Op: "sub", A: 0, B: 0}, {Op: "sub", A: 1, B: 0}, {Op: "sub", A: 2, B: 0}, {Op: "flush"},
+					{Op: "cancelin", A: who}, {Op: term, A: who}, {Op: "next", A: other, B: 64}, {Op: "next", A: 2, B: 65},
+					{Op: "cancelin", A: 2}, {Op: "complete", A: 2}, {Op: "next", A: other, B: 66}, {Op: "cancel", A: other}}
+				if idle == 1 {
+					evs3 = append(evs3, Ev{Op: "tick"})
+				}
+				evs3 = append(evs3, Ev{Op: "stats"})
+				add(idle, map[int]Key{0: k0, 1: k0, 2: k0}, evs3)
+			}
+		}
+	}
 	// --- family 2: two subscribers, keys differing in exactly one field: never shared
 	for v := 1; v < len(keyVariants); v++ {
 		kA, kB := keyVariants[0], keyVariants[v]
@@ -1098,8 +1155,12 @@ func genAll(seed uint64, thorough bool) []*Sched {
 				}
 			case 3:
 				if started[i] && !cancelled[i] {
-					cancelled[i] = true
-					evs = append(evs, Ev{Op: "cancel", A: i})
+					if r.Chance(1, 3) {
+						evs = append(evs, Ev{Op: "cancelin", A: i})
+					} else {
+						cancelled[i] = true
+						evs = append(evs, Ev{Op: "cancel", A: i})
+					}
 				}
 			case 4, 5:
 				evs = append(evs, Ev{Op: "accept", A: i})
